@@ -3,7 +3,7 @@ From Coq Require Import List Arith Bool ZArith Permutation String.
 From KV Require Import Base.Sx Gen.Generated Model.LazyInit Proofs.LazyInitP Model.TaskGraph Proofs.TaskGraphP
                        Model.Guarded Proofs.GuardedP Model.SharedSites Proofs.SharedSitesP Model.LockOrder Proofs.LockOrderP Proofs.ReqProgP
                        Model.PerCall Proofs.PerCallP.
-From KV Require Model.ScratchRace Proofs.ScratchRaceP.
+From KV Require Model.ScratchRace Proofs.ScratchRaceP Model.GuardTest Proofs.GuardTestP.
 Import ListNotations.
 Close Scope Z_scope.
 Open Scope nat_scope.
@@ -610,3 +610,43 @@ Example C20_private_scratch_example :
   ScratchRaceP.ex_out (fun p => p =? 2) sched 0 = [25; 35; 49]%Z.
 Proof. exact ScratchRaceP.private_scratch_example. Qed.
 Print Assumptions C20_private_scratch_example.
+
+(* round 4: a test made OUTSIDE a lock on state that is written UNDER it (recursion guard of the virtual sensors)       *)
+Theorem C20_guard_test_safe : forall pos want len, pos <> GuardTest.GOutside -> forall sched,
+  let c := GuardTest.gexec pos want len sched in
+  (forall t, GuardTest.g_th c t <> GuardTest.TRaised) /\
+  (forall t, GuardTest.g_th c t = GuardTest.TDone -> In (want t) (GuardTest.g_cached c)) /\
+  (GuardTest.g_holder c = None -> GuardTest.g_busy c = []) /\
+  (forall t, GuardTest.inside (GuardTest.g_th c t) = true <-> GuardTest.g_holder c = Some t).
+Proof. exact GuardTestP.guard_safe. Qed.
+Print Assumptions C20_guard_test_safe.
+Theorem C20_sensor_no_spurious_keyerror : forall want len sched,
+  let c := GuardTest.gexec GuardTest.sensor_guard_pos want len sched in
+  (forall t, GuardTest.g_th c t <> GuardTest.TRaised) /\
+  (forall t, GuardTest.g_th c t = GuardTest.TDone -> In (want t) (GuardTest.g_cached c)) /\
+  (GuardTest.g_holder c = None -> GuardTest.g_busy c = []) /\
+  (forall t, GuardTest.inside (GuardTest.g_th c t) = true <-> GuardTest.g_holder c = Some t).
+Proof. exact GuardTestP.sensor_no_spurious_keyerror. Qed.
+Print Assumptions C20_sensor_no_spurious_keyerror.
+Theorem C20_guard_test_outside_refuted :
+  exists sched, GuardTest.g_th (GuardTest.gexec GuardTest.GOutside (fun _ => 7) (fun _ => 2) sched) 1 = GuardTest.TRaised /\
+                GuardTest.g_th (GuardTest.gexec GuardTest.GOutside (fun _ => 7) (fun _ => 2) (filter (fun t => t =? 1) (sched ++ repeat 1 8))) 1 = GuardTest.TDone /\
+                GuardTest.g_th (GuardTest.gexec GuardTest.GInside (fun _ => 7) (fun _ => 2) (sched ++ repeat 0 8 ++ repeat 1 8)) 1 = GuardTest.TDone.
+Proof. exact GuardTestP.guard_outside_refuted. Qed.
+Print Assumptions C20_guard_test_outside_refuted.
+Example C20_guard_test_inside_example :
+  let c := GuardTest.gexec GuardTest.GInside (fun t => match t with 0 => 7 | 1 => 7 | _ => 9 end) (fun _ => 2)
+             ([0; 0; 0; 1; 2; 1; 0; 2] ++ repeat 0 8 ++ repeat 1 10 ++ repeat 2 10) in
+  GuardTest.g_th c 0 = GuardTest.TDone /\ GuardTest.g_th c 1 = GuardTest.TDone /\ GuardTest.g_th c 2 = GuardTest.TDone /\
+  GuardTest.g_busy c = [] /\ GuardTest.g_cached c = [9; 7].
+Proof. exact GuardTestP.guard_inside_example. Qed.
+Print Assumptions C20_guard_test_inside_example.
+Theorem C20_outside_lock_mentions_listed :
+  c20_outside_lock_mentions =
+  [("sensor", ["add_aliases:_raw"; "__iter__:_raw"; "__len__:_raw"]); ("concat", []); ("dask", []); ("spw", []); ("pool", [])]%string
+  /\ c20_guarded_derived =
+  [("sensor", ["_raw"; "timestamps"]); ("concat", []); ("dask", ["_dataset"; "_orig_dataset"]); ("spw", ["_channel_freqs"]);
+   ("pool", ["_pool"])]%string
+  /\ c20_sensor_get_pretests = [].
+Proof. exact GuardTestP.outside_lock_mentions_listed. Qed.
+Print Assumptions C20_outside_lock_mentions_listed.
